@@ -1,4 +1,5 @@
 """Helpers of the C20 check: exact geometry on drawn polygons, colormap bin decoding, artist extraction."""
+import math
 from fractions import Fraction as F
 
 import numpy as np
@@ -128,7 +129,14 @@ def check_voronoi(sites, site_t, polys, facecolors, cmap, box, clip, sample_pts)
             for sj, o in enumerate(sites):
                 if sj != si:
                     do = d2(v, o)
-                    if dv > do + F(1, 10 ** 9) * max(dv, do, F(1, 10 ** 30)):
+                    # tolerance: the regions are built by Qhull on the centroids plus four auxiliary points 1000 ranges away, so a
+                    # vertex carries a position error of the order of 1e-9 x that scale (measured: 2e-10 on a 0.3 x 7.5 box); a
+                    # vertex that is farther from its own centroid than from another by more than the corresponding change of the
+                    # squared distance is outside the nearest-neighbour region
+                    epos = F(1, 10 ** 9) * 1000 * max(box[0][1] - box[0][0], box[1][1] - box[1][0])
+                    dso = d2(s, o)
+                    tol = epos * epos + 2 * epos * F(math.sqrt(float(dso)) + 1e-300) + F(1, 10 ** 9) * max(dv, do, F(1, 10 ** 30))
+                    if dv > do + tol:
                         return ("polygon %d (centroid %d): vertex (%r, %r) is closer to centroid %d — not inside the nearest-"
                                 "neighbour region" % (pi, si, float(v[0]), float(v[1]), sj))
         if not color_ok(cmap, site_t[si], facecolors[pi]):
